@@ -34,11 +34,15 @@ CLOSED_T = [NAT, FLT, TupleType([INT, FLT]), NoneType(), option_type(NAT)]
 LAST_DETAIL = None
 
 
+_BOUNDS = {"T": (False, False), "A": (True, False), "B": (False, True), "E": (True, True)}    # type parameters by (must be copyable, must be droppable)
+
+
 def mkparams():
     ps = []
     for i, k in enumerate(KINDS):
-        if k == "T":
-            ps.append(TypeParam(i, f"T{i}", False, False))
+        if k in _BOUNDS:
+            c, d = _BOUNDS[k]
+            ps.append(TypeParam(i, f"T{i}", c, d))
         elif k == "N":
             ps.append(ConstParam(i, f"n{i}", NAT))
         else:
@@ -60,7 +64,7 @@ def mention(p, shape):
 
 def arg_for(p, sel, t0_choice):
     if isinstance(p, TypeParam):
-        return TypeArg(CLOSED_T[sel])
+        return TypeArg(CLOSED_T[sel] if sel == 0 or p.must_be_copyable else array_type(INT, 2))   # (a non-copyable argument only where the bound allows it)
     if p.ty == NAT:
         return ConstArg(ConstValue(NAT, sel))
     # const of type T0: its value must have the type chosen for T0
@@ -102,9 +106,16 @@ def h_laws(case: int) -> bool:
         if [p.idx for p in g.params] != list(range(len(rem))) or [p.name for p in g.params] != [p.name for p in rem]:
             LAST_DETAIL = f"L2: remaining parameters {[(p.idx, p.name) for p in g.params]} after instantiating {mask} of {[p.name for p in ps]}"
             return False
+        for gp, rp in zip(g.params, rem):
+            if isinstance(rp, TypeParam) and (gp.must_be_copyable, gp.must_be_droppable) != (rp.must_be_copyable, rp.must_be_droppable):
+                LAST_DETAIL = f"L2: parameter {rp.name} had bounds (copyable={rp.must_be_copyable}, droppable={rp.must_be_droppable}), after re-indexing ({gp.must_be_copyable}, {gp.must_be_droppable})"
+                return False
         for v in g.bound_vars | set().union(*[i.ty.bound_vars for i in g.inputs]) | g.output.bound_vars:
             if not (0 <= v.idx < len(rem)) or v.display_name != rem[v.idx].name:
                 LAST_DETAIL = f"L2: bound variable {v} does not refer to a remaining parameter {[p.name for p in rem]}"
+                return False
+            if isinstance(rem[v.idx], TypeParam) and (v.copyable, v.droppable) != (rem[v.idx].must_be_copyable, rem[v.idx].must_be_droppable):
+                LAST_DETAIL = f"L2: bound variable {v} carries bounds different from its parameter {rem[v.idx]}"
                 return False
         # L1
         rest = [a for a, m in zip(full, mask) if not m]
